@@ -447,7 +447,7 @@ def check_inspect(ctx, rid, repo):
                "Workspace": workspace, ".get_measurement": get_measurement, ".model": model, ".get": get, ".format": fmt, "dump": dump, "open": py_open,
                "echo": lambda a, k: rec["echo"].append(a[0] if a else "")}
         psets = Obj("paramsets", {"unconstrained": U, "constrained_by_normal": N, "constrained_by_poisson": P}, closed=True)
-        w = World(ext, module_env={"parameters": Obj("parameters", {"paramsets": psets}, closed=True), "click": Obj("click"), "json": Obj("json"), "log": Obj("log"), "modifiers": Obj("modifiers"), "utils": Obj("utils")})
+        w = World(ext, module_env={"parameters": Obj("parameters", {"paramsets": psets}, closed=True), "click": Obj("click"), "json": Obj("json"), "log": Obj("log"), "modifiers": Obj("modifiers"), "utils": Obj("utils", {"__strict_calls__": True})})
         label = f"pyhf inspect{' --measurement ' + meas if meas else ''}{' --output-file' if out_file else ''}"
         try:
             w.call_func(f, [], {"workspace": "ws.json", "output_file": out_file, "measurement": meas})
@@ -580,7 +580,7 @@ def check_workspace_commands(ctx, rid, repo):
                "Workspace": workspace, "PatchSet": patchset, ".prune": method("prune"), ".rename": method("rename"), ".apply": method("apply"), ".verify": method("verify"),
                "combine": classcall("combine"), "sorted": classcall("sorted"), "digest": digest, "__getitem__": getitem,
                "dumps": dumps, "dump": lambda a, k: rec["dumped"].append((_canon(a[0]), a[1] if len(a) > 1 else None)), "echo": lambda a, k: rec["echo"].append(a[0] if a else ""), "secho": lambda a, k: rec["echo"].append(a[0] if a else "")}
-        w = World(ext, module_env={"click": Obj("click"), "json": Obj("json"), "log": Obj("log"), "utils": Obj("utils")})
+        w = World(ext, module_env={"click": Obj("click"), "json": Obj("json"), "log": Obj("log"), "utils": Obj("utils", {"__strict_calls__": True})})
         world_getitem = w.externals()["__getitem__"]
 
         def any_getitem(base, idx):
